@@ -154,7 +154,9 @@ def scalar_type(sort):
 
 
 class Member:
-    __slots__ = ("idx", "elem", "cond", "origin", "from_concat", "serial")
+    __slots__ = ("idx", "elem", "cond", "origin", "from_concat", "serial", "derived", "gen")
+    deriving = [0]
+    cur_gen = [0]
     _next = [0]
 
     def __init__(self, idx, elem, cond, origin=None):
@@ -165,6 +167,8 @@ class Member:
         self.from_concat = None
         Member._next[0] += 1
         self.serial = Member._next[0]
+        self.derived = Member.deriving[0] > 0
+        self.gen = Member.cur_gen[0]
 
 
 TRUE = z3.BoolVal(True)
@@ -230,7 +234,11 @@ class LTerm:
         self.members.append(m)
         self._mkeys[(idx.get_id(), cond.get_id())] = m
         ctx.assume(z3.Implies(cond, z3.And(idx >= 0, idx < self.length())))
-        self.define_member(m)
+        Member.deriving[0] += 1
+        try:
+            self.define_member(m)
+        finally:
+            Member.deriving[0] -= 1
         return m
 
     def define_member(self, m):
@@ -525,10 +533,26 @@ class Sorted(LTerm):
         ctx = self.ctx
         pi = self.perm(m.idx)
         im = self.inner.new_member(m.cond, pi)
+        m.origin = im
         ctx.assume(z3.Implies(m.cond, self.interp.elem_eq(m.elem, im.elem)))
         for om in self.members:
             if om is not m:
                 ctx.assume(z3.Implies(z3.And(m.cond, om.cond, om.idx != m.idx), self.perm(om.idx) != pi))
+
+    def forward(self, pm):
+        """an element of the unsorted list occurs somewhere in the sorted one"""
+        ctx = self.ctx
+        if getattr(self, "iperm", None) is None:
+            self.iperm = z3.Function("iperm!" + self.uid, INT, INT)
+        q = self.iperm(pm.idx)
+        m = Member(q, self.at(q), pm.cond, origin=pm)
+        for om in self.members:
+            ctx.assume(z3.Implies(z3.And(pm.cond, om.cond, om.idx != q), self.perm(om.idx) != pm.idx))
+        self.members.append(m)
+        self._mkeys = None
+        ctx.assume(z3.Implies(pm.cond, z3.And(self.perm(q) == pm.idx, q >= 0, q < self.length(),
+                                              self.interp.elem_eq(m.elem, pm.elem))))
+        return m
 
     def describe(self):
         return "Sorted(%s)" % self.inner.describe()
@@ -601,6 +625,8 @@ def mk_fm(interp, src, jvar, paths, etype, binds=()):
                     ctx.hc[key] = src
                 return src
     t = FM(interp, src, jvar, paths, etype, binds)
+    t.pkey = key[2:] if key is not None else None
+    ctx.all_fms.append(t)
     if key is not None:
         ctx.hc[key] = t
     # semantic unification: an FM over the same source that is provably the same list (pointwise equal
@@ -709,6 +735,7 @@ class Ctx:
         self.inputs = {}
         self.hc = {}
         self.fm_terms = []
+        self.all_fms = []
         self.links = []
         self._strip_seen = set()
         self._strip_visited = set()
@@ -727,6 +754,7 @@ class Ctx:
             self.inputs = parent.inputs
             self.hc = dict(parent.hc)
             self.fm_terms = list(parent.fm_terms)
+            self.all_fms = list(parent.all_fms)
             self.links = list(parent.links)
             self.gs = {k: list(v) for k, v in parent.gs.items()}
             self.templates = parent.templates
@@ -862,6 +890,15 @@ class Ctx:
         """Instantiate schematic list facts on the member witnesses (to a fixpoint)."""
         changed = True
         rounds = 0
+        Member.deriving[0] += 1
+        try:
+            self._ground_loop()
+        finally:
+            Member.deriving[0] -= 1
+
+    def _ground_loop(self):
+        changed = True
+        rounds = 0
         while changed:
             changed = False
             rounds += 1
@@ -869,23 +906,55 @@ class Ctx:
                 raise EngineError("grounding does not terminate")
             # linked terms (proved equal as lists): indices of interest are shared
             for (t1, t2) in list(self.links):
+                # congruence: the same map/filter over equal lists gives equal lists
+                for f1 in self.all_fms:
+                    if f1.src is t1 and f1.pkey is not None:
+                        for f2 in self.all_fms:
+                            if f2.src is t2 and f2.pkey == f1.pkey and f1 is not f2 and \
+                                    not any((a is f1 and b is f2) or (a is f2 and b is f1) for a, b in self.links):
+                                self.links.append((f1, f2))
+                                self.assume(f1.length() == f2.length())
+                                changed = True
+                j1, j2 = getattr(t1, "_joins", None), getattr(t2, "_joins", None)
+                if j1 and j2:
+                    for sep, v1 in j1.items():
+                        if sep in j2 and (id(t1), id(t2), sep) not in self.hc:
+                            self.hc[(id(t1), id(t2), sep)] = True
+                            self.assume(v1 == j2[sep])
+                            changed = True
                 for (a, b) in ((t1, t2), (t2, t1)):
                     done = a.__dict__.setdefault("_linked_%d" % id(b), set())
                     for m in list(a.members):
                         if m.serial in done:
                             continue
                         done.add(m.serial)
+                        if m.gen > 0:
+                            continue  # indices are shared across a link at most twice (no ping-pong)
                         if b.find_member(m.idx, m.cond) is not None:
                             continue
                         if self.fwd_budget <= 0:
                             continue
                         self.fwd_budget -= 1
-                        bm_ = b.new_member(m.cond, m.idx)
+                        Member.cur_gen[0] = m.gen + 1
+                        try:
+                            bm_ = b.new_member(m.cond, m.idx)
+                        finally:
+                            Member.cur_gen[0] = 0
                         b.__dict__.setdefault("_linked_%d" % id(a), set()).add(bm_.serial)
                         if a.etype is not None and b.etype is not None:
                             self.assume(z3.Implies(m.cond, self.interp.elem_eq(m.elem, bm_.elem)))
                         changed = True
             # forward propagation: images of source members in lists that carry universal facts
+            # a filter whose length the program looked at: what each known source element contributes
+            for t in list(self.terms):
+                if isinstance(t, FM) and not t.is_map and getattr(t, "len_observed", False):
+                    n0 = t.__dict__.get("_noted_n", 0)
+                    sms = t.src.members
+                    if len(sms) != n0:
+                        for sm in list(sms):
+                            t.note_source_member(sm)
+                        t._noted_n = len(sms)
+                        changed = True
             flagged = set()
             work = [t for t in self.terms if (t.all_facts or t.pair_facts or t.adj_facts)]
             while work:
@@ -897,6 +966,8 @@ class Ctx:
                     work.append(t.src)
                 elif isinstance(t, Concat):
                     work.extend(t.parts)
+                elif isinstance(t, Sorted):
+                    work.append(t.inner)
             for t in list(self.terms):
                 if id(t) not in flagged:
                     continue
@@ -915,9 +986,31 @@ class Ctx:
                         if self.fwd_budget <= 0:
                             continue
                         self.fwd_budget -= 1
-                        t.forward(sm)
+                        Member.cur_gen[0] = sm.gen
+                        try:
+                            t.forward(sm)
+                        finally:
+                            Member.cur_gen[0] = 0
                         changed = True
                     t._fwd_n = len(t.src.members)
+                elif isinstance(t, Sorted):
+                    done = t.__dict__.setdefault("_fwd", set())
+                    have = set(id(m.origin) for m in t.members if m.origin is not None)
+                    for pm in list(t.inner.members):
+                        if pm.serial in done:
+                            continue
+                        done.add(pm.serial)
+                        if id(pm) in have:
+                            continue
+                        if self.fwd_budget <= 0:
+                            continue
+                        self.fwd_budget -= 1
+                        Member.cur_gen[0] = pm.gen
+                        try:
+                            t.forward(pm)
+                        finally:
+                            Member.cur_gen[0] = 0
+                        changed = True
                 elif isinstance(t, Concat):
                     done = t.__dict__.setdefault("_fwd", set())
                     for pi, p in enumerate(t.parts):
@@ -935,7 +1028,11 @@ class Ctx:
                             if self.fwd_budget <= 0:
                                 continue
                             self.fwd_budget -= 1
-                            t.forward(pi, pm)
+                            Member.cur_gen[0] = pm.gen
+                            try:
+                                t.forward(pi, pm)
+                            finally:
+                                Member.cur_gen[0] = 0
                             changed = True
             sf = self.interp.strip_fn
             for t in list(self.terms):
@@ -1058,6 +1155,40 @@ class Ctx:
         return d.val
 
 
+BOOK_PREFIXES = ("_fwd", "_noted_n", "_linked_", "_all_members", "_empty_known", "_joins", "_mkeys", "_sorted_proved")
+
+
+def snapshot_terms(terms):
+    """lengths of the per-term registries and copies of the per-term bookkeeping (all of it is per path /
+    per scope: anything recorded while a scope or a child exploration is active must be forgotten afterwards)"""
+    snap = []
+    for t in terms:
+        book = {}
+        for k, v in t.__dict__.items():
+            if k.startswith(BOOK_PREFIXES):
+                book[k] = set(v) if isinstance(v, set) else (dict(v) if isinstance(v, dict) else v)
+        snap.append((t, len(t.members), len(t.all_facts), len(t.pair_facts), len(t.adj_facts),
+                     len(getattr(t, "_mapped", [])), book))
+    return snap
+
+
+def restore_terms(snap):
+    for (t, nm, na, np_, nj, nmap, book) in snap:
+        del t.members[nm:]
+        del t.all_facts[na:]
+        del t.pair_facts[np_:]
+        del t.adj_facts[nj:]
+        if hasattr(t, "_mapped"):
+            del t._mapped[nmap:]
+        for k in [k for k in t.__dict__ if k.startswith(BOOK_PREFIXES)]:
+            del t.__dict__[k]
+        for k, v in book.items():
+            if k == "_mkeys":
+                continue
+            t.__dict__[k] = set(v) if isinstance(v, set) else (dict(v) if isinstance(v, dict) else v)
+        t._mkeys = None
+
+
 class _Scope:
     def __init__(self, ctx):
         self.ctx = ctx
@@ -1067,12 +1198,12 @@ class _Scope:
         ctx.ground()
         ctx.solver.push()
         self.nterms = len(ctx.terms)
-        self.snap = [(t, len(t.members), len(t.all_facts), len(t.pair_facts), len(t.adj_facts),
-                      len(getattr(t, "_mapped", []))) for t in ctx.terms]
+        self.snap = snapshot_terms(ctx.terms)
         self.nfacts = len(ctx.facts)
         self.gs = {k: list(v) for k, v in ctx.gs.items()}
         self.hc = dict(ctx.hc)
         self.nfm = len(ctx.fm_terms)
+        self.nallfm = len(ctx.all_fms)
         self.nlinks = len(ctx.links)
         self.nlits = ctx._nlits
         self.budget = ctx.fwd_budget
@@ -1082,20 +1213,13 @@ class _Scope:
     def __exit__(self, *exc):
         ctx = self.ctx
         ctx.solver.pop()
-        for (t, nm, na, np_, nj, nmap) in self.snap:
-            del t.members[nm:]
-            del t.all_facts[na:]
-            del t.pair_facts[np_:]
-            del t.adj_facts[nj:]
-            if hasattr(t, "_mapped"):
-                del t._mapped[nmap:]
+        restore_terms(self.snap)
         del ctx.terms[self.nterms:]
         del ctx.facts[self.nfacts:]
         ctx.gs = self.gs
-        for (t, nm, na, np_, nj, nmap) in self.snap:
-            t._mkeys = None
         ctx.hc = self.hc
         del ctx.fm_terms[self.nfm:]
+        del ctx.all_fms[self.nallfm:]
         del ctx.links[self.nlinks:]
         ctx._nlits = self.nlits
         ctx.fwd_budget = self.budget
